@@ -646,7 +646,7 @@ fn record(report: &Report, c: &Case, st: &Stats, domain: &str) {
     report.label_n("diagnostics-compared", st.diagnostics as u64);
     report.label_n("diagnostics-nontrivial", st.nontrivial_diagnostics as u64);
     report.label_n("edit-ranges-compared", st.edits as u64);
-    report.sample(&format!("{domain}{}", if nontrivial { "-nontrivial" } else { "" }), 1, || to_json(c));
+    crate::sample(report, &format!("{domain}{}", if nontrivial { "-nontrivial" } else { "" }), 1, || to_json(c));
 }
 
 pub fn run(args: &Args) {
